@@ -151,6 +151,11 @@ Proj:
         Store
         Audit
         Notify
+    callers:
+        Audit
+    callers2 [passthrough=["Notify"]]:
+        Store
+        Audit
 `,
 	"mixins": c07Src5Model,
 	"restonly": "Shop [version=\"1.0\"]:\n    !type T:\n        fa <: int\n        fb <: string?\n        fc <: sequence of Other\n        fd <: Other?\n        fe <: bool\n    !type Other:\n        oid <: int\n        note <: string?\n        more <: date\n    !enum Kind:\n        A: 1\n        B: 2\n        C: 3\n    /items/{id <: int}:\n        GET ?limit=int?&must=string&third=bool:\n            return ok <: T\n            return 404 <: Other\n        POST (body <: T [~body], trace <: string [~header], span <: string [~header]):\n            return 200 <: sequence of T\n    /others:\n        GET:\n            return ok <: sequence of Other\n",
